@@ -6,7 +6,7 @@ import zlib
 from collections import Counter
 
 from . import bootstrap as B
-from . import sched, spec as S
+from . import probes, sched, spec as S
 from .sym import Sym
 
 REGISTRY = {}
@@ -284,17 +284,19 @@ def job_sched(j):
         if j.get("mc") is not None:
             sp["mc"] = j["mc"]
         located = True
+        # plain probes also for setup functions: their values must be the reference's terms (no invocation numbers here)
+        plain0 = {name: probes.mkprobe(name, shape=tuple(fs["shape"]) if fs.get("shape") else None) for name, fs in sp["fns"].items()}
         try:
             if j.get("faults") and rng.random() < 0.2:
                 # no stack-frame support (as in the repository's own test): call locations are unknown
                 from unittest import mock
 
                 with mock.patch("inspect.currentframe", return_value=None):
-                    d, _env, plain = S.build_tawazi(sp)
+                    d, _env, plain = S.build_tawazi(sp, plain=plain0)
                 located = False
                 col.counters["dags_built_without_frame_support"] += 1
             else:
-                d, _env, plain = S.build_tawazi(sp)
+                d, _env, plain = S.build_tawazi(sp, plain=plain0)
         except BaseException as e:  # noqa: BLE001
             col.counters["build_error:%s" % type(e).__name__] += 1
             col.inconclusive.append("build failed for generated shape: %r" % (e,))
@@ -303,6 +305,8 @@ def job_sched(j):
         if set(ids) - set(d.exec_nodes):
             col.inconclusive.append("predicted node ids not found in DAG: %s" % sorted(set(ids) - set(d.exec_nodes))[:3])
             continue
+        pre_values = {}  # setup results already on this DAG instance: site -> value
+        sset = sched.setup_sites(sp)
         reconf_at = None
         if rng.random() < j.get("reconfig", 0.45):
             reconf_at = rng.choice([0, 1])  # before the first call, or after it (call, reload, call on one object)
@@ -311,8 +315,10 @@ def job_sched(j):
                 sp = reconfigure(rng, sp, d, ids, j.get("gen", {}).get("mc_max", 4))
                 col.counters["reconfigured_dags_%s" % ("before_first_call" if _rep == 0 else "between_calls")] += 1
             op = pick_op(rng, sp, ids, j.get("selections", False))
+            if sset and _rep == 0 and rng.random() < 0.5:
+                op = {"kind": "setup"}  # an explicit setup() before the first call
             faults = []
-            if j.get("faults") and rng.random() < j.get("fault_rate", 1.0):
+            if j.get("faults") and op.get("kind") != "setup" and not sset and rng.random() < j.get("fault_rate", 1.0):
                 k = 1 if rng.random() < 0.7 else 2
                 faults = rng.sample(ids, min(k, len(ids)))
             args = [Sym("arg", rng.randrange(1 << 30))]
@@ -323,9 +329,16 @@ def job_sched(j):
             old_prof = _cfg.TAWAZI_PROFILE_ALL_NODES
             _cfg.TAWAZI_PROFILE_ALL_NODES = prof
             try:
-                case = sched.run_case(sp, op=op, args=args, faults=faults, controlled=(mode == "ctl"), d=d, plain=plain)
+                case = sched.run_case(sp, op=op, args=args, faults=faults, controlled=(mode == "ctl"), d=d, plain=plain,
+                                      pre_values=pre_values)
             finally:
                 _cfg.TAWAZI_PROFILE_ALL_NODES = old_prof
+            if sset and case["res"][0] == "ok":
+                for e in case["log"]:
+                    if e["kind"] == "FEXIT" and e.get("ok") and e["node"] in ids and ids.index(e["node"]) in sset:
+                        pre_values.setdefault(ids.index(e["node"]), e["value"])
+                if op.get("kind") == "setup":
+                    col.counters["setup_operations"] += 1
             if prof:
                 col.counters["cases_with_profiling_on"] += 1
             case["located"] = located
